@@ -2,7 +2,7 @@
 import os, json, subprocess
 from lib import engine, native, demos
 from lib.core import tier, VERIF, Undecided
-from units import k07_reducers, k04_update, k23_slices
+from units import k07_reducers, k04_update, k23_slices, k08_bodies
 from . import common
 
 LEVEL = "other"
@@ -12,7 +12,8 @@ EXPLANATION = (
     "PROVED by CBMC (loop-free, full domain): SerializableMinOddCycleMinOp returns one of its operands, exists = e1 or "
     "e2, the minimum weight when both exist, and - from that contract alone - is associative and COMMUTATIVE on the "
     "(exists,weight) view, which is what the is_commutative declaration promises to Boost.MPI; the cycle_min lambda "
-    "and the update task of mcb_sva_signed_mpi as in C03.  BOUNDED: the slice arithmetic (ceil stride / istart / iend) "
+    "and the update task of mcb_sva_signed_mpi as in C03; the two local reduce bodies of find_shortest_odd_cycle_mpi are "
+    "accumulating folds that hand the search exactly the chain suffix (K8, modular against K9, given the chain tables).  BOUNDED: the slice arithmetic (ceil stride / istart / iend) "
     "partitions 0..total-1 for every total<=600 (4096) and every P<=64, including P larger than the work (native "
     "exhaustive; the float division timed out in CBMC).  BOUNDED stand-in for the entry points: all five compiled "
     "UNCHANGED against executable contract models of Boost.MPI (P threads, rendez-vous collectives that detect "
@@ -48,6 +49,7 @@ def _real_replay(v):
 def run(rep):
     specs = [s for s in k07_reducers.units(tier()) if "mpi" in s["unit"] or "identity" in s["unit"]]
     specs += [s for s in k04_update.units(tier(), which=("K4", "K5")) if "mpi" in s.get("unit", "")]
+    specs += [u for u in k08_bodies.units(tier()) if "mpi" in u.get("unit", "")]
     engine.run_units(rep, specs)
     try:
         gen_dir, gen_hash, gen_log, gen_stmts = k23_slices.generate()
